@@ -16,3 +16,100 @@ Proof.
     + unfold script_stream. simpl. rewrite app_assoc, firstn_skipn. split; [reflexivity|].
       unfold blen. rewrite firstn_length. lia.
 Qed.
+
+(* ---------- counter exactness: TotalRead = pulled - Buffered is an invariant of every operation ---------- *)
+Definition Inv (s : reader) : Prop :=
+  1 <= rcap s /\ 0 <= rr s /\ rr s <= rw s /\ rw s <= rcap s /\
+  rtotal s = rpulled s - (rw s - rr s) /\ rr s <= rtotal s /\ (0 <= rlast s -> 1 <= rtotal s).
+
+Lemma sub_length l a b : 0 <= a -> a <= b -> b <= blen l -> blen (sub l a b) = b - a.
+Proof. intros. unfold sub, blen in *. rewrite firstn_length, skipn_length. lia. Qed.
+Lemma blit_length dst off src : 0 <= off -> off + blen src <= blen dst -> blen (blit dst off src) = blen dst.
+Proof.
+  intros. unfold blit, blen in *. rewrite !app_length, firstn_length, skipn_length. lia.
+Qed.
+Lemma src_read_len room s d e s' : 0 <= room -> src_read room s = (d, e, s') -> blen d <= room.
+Proof. intros H E. destruct (src_read_stream room s d e s' H E) as [_ L]. lia. Qed.
+Lemma index_byte_bound c l i : index_byte c l = Some i -> Z.of_nat i + 1 <= blen l.
+Proof.
+  revert i. induction l as [|x r IH]; intros i H; simpl in H; [discriminate|]. unfold blen in *. simpl length.
+  destruct (x =? c); [inversion H; lia|].
+  destruct (index_byte c r) as [j|]; [|discriminate]. simpl in H. inversion H. specialize (IH j eq_refl). lia.
+Qed.
+Lemma nonempty_blen (l : bytes) : l <> [] -> 1 <= blen l.
+Proof. destruct l; [congruence|]. unfold blen. simpl. lia. Qed.
+Lemma note_last_ok line old t k : (0 <= old -> 1 <= t) -> 0 <= t -> 0 <= k -> (line <> [] -> 1 <= k) ->
+  0 <= note_last line old -> 1 <= t + k.
+Proof.
+  intros H1 H2 H3 H4 H5. destruct line as [|x r]; simpl in H5; [specialize (H1 H5); lia|].
+  assert (1 <= k) by (apply H4; discriminate). lia.
+Qed.
+
+Ltac recsimpl := cbn [rbuf rr rw rerr rlast rtotal rsrc rpulled] in *.
+
+Lemma fill_inv s : Inv s -> Inv (fill s) /\ rcap (fill s) = rcap s /\ rr (fill s) = 0 /\
+  rw (fill s) >= buffered s /\ rlast (fill s) = rlast s /\ rtotal (fill s) = rtotal s.
+Proof.
+  unfold Inv, fill, rcap, buffered, window. intros (Hc & Hr0 & Hrw & Hwc & Ht & Hrt & Hl).
+  set (slide := 0 <? rr s).
+  set (w1 := if slide then rw s - rr s else rw s).
+  set (buf1 := if slide then blit (rbuf s) 0 (sub (rbuf s) (rr s) (rw s)) else rbuf s).
+  assert (Hw1 : 0 <= w1 <= blen (rbuf s) /\ w1 = rw s - rr s) by (unfold w1, slide; destruct (0 <? rr s) eqn:E; lia).
+  assert (Hb1 : blen buf1 = blen (rbuf s)).
+  { unfold buf1. destruct slide; [|reflexivity]. apply blit_length; [lia|]. rewrite sub_length; lia. }
+  destruct (src_read (blen (rbuf s) - w1) (rsrc s)) as [[d e] src'] eqn:Es.
+  assert (Hroom : 0 <= blen (rbuf s) - w1) by lia.
+  pose proof (src_read_len _ _ _ _ _ Hroom Es) as Hd.
+  assert (0 <= blen d) by (unfold blen; lia).
+  recsimpl. rewrite blit_length by lia. rewrite Hb1. repeat split; try lia.
+Qed.
+
+Lemma rd_copy_inv n s d e s' : Inv s -> 0 < n -> rr s < rw s -> rd_copy n s = (d, e, s') -> Inv s'.
+Proof.
+  unfold rd_copy, Inv, advance, buffered, rcap. intros (Hc & Hr0 & Hrw & Hwc & Ht & Hrt & Hl) Hn Hlt E.
+  inversion E; subst; clear E. recsimpl. repeat split; try lia.
+Qed.
+
+Lemma rd_read_inv n s d e s' : Inv s -> 0 <= n -> rd_read n s = (d, e, s') -> Inv s'.
+Proof.
+  intros HI Hn. unfold rd_read.
+  destruct (n =? 0) eqn:En; [intros E; inversion E; subst; unfold Inv, set_err, rcap in *; recsimpl; exact HI|].
+  destruct (rw s =? rr s) eqn:Ew.
+  - destruct (negb (rerr s =? 0)); [intros E; inversion E; subst; unfold Inv, set_err, rcap in *; recsimpl; exact HI|].
+    destruct (rcap s <=? n) eqn:Ec.
+    + destruct (src_read n (rsrc s)) as [[d0 e0] src'] eqn:Es. intros E; inversion E; subst; clear E.
+      pose proof (src_read_len _ _ _ _ _ Hn Es) as Hd. assert (0 <= blen d) by (unfold blen; lia).
+      unfold Inv, rcap in *. recsimpl. destruct HI as (Hc & Hr0 & Hrw & Hwc & Ht & Hrt & Hl).
+      repeat split; try lia. intros Hn0. apply (note_last_ok d (rlast s)); try lia; try assumption.
+      intros Hne. apply nonempty_blen. exact Hne.
+    + destruct (fill_inv s HI) as (HI1 & _). destruct (rw (fill s) =? rr (fill s)) eqn:Ef.
+      * intros E; inversion E; subst. unfold Inv, set_err, rcap in *; recsimpl; exact HI1.
+      * intros E. apply (rd_copy_inv n (fill s) d e s' HI1); [lia| |exact E].
+        unfold Inv in HI1. lia.
+  - intros E. apply (rd_copy_inv n s d e s' HI); [lia| |exact E]. unfold Inv in HI. lia.
+Qed.
+
+Lemma rd_byte_loop_inv : forall fuel s c e s', Inv s -> rd_byte_loop fuel s = (c, e, s') -> Inv s'.
+Proof.
+  induction fuel as [|f IH]; intros s c e s' HI; cbn [rd_byte_loop];
+  (destruct (rw s =? rr s) eqn:Ew;
+   [destruct (negb (rerr s =? 0));
+     [intros E; inversion E; subst; unfold Inv, set_err, rcap in *; recsimpl; exact HI|]
+   |intros E; inversion E; subst; unfold Inv, advance, rcap in *; recsimpl; lia]).
+  - intros E; inversion E; subst. exact HI.
+  - intros E. apply (IH (fill s) c e s'); [apply fill_inv; exact HI|exact E].
+Qed.
+
+Lemma rd_unread_inv s e s' : Inv s -> rd_unread s = (e, s') -> Inv s'.
+Proof.
+  unfold rd_unread. intros HI.
+  destruct ((rr s =? rw s) && (0 <=? rlast s)) eqn:E1.
+  - intros E; inversion E; subst; clear E. unfold Inv, rcap, dec_total in *. recsimpl.
+    destruct HI as (Hc & Hr0 & Hrw & Hwc & Ht & Hrt & Hl).
+    rewrite blit_length by (unfold blen; simpl; lia).
+    assert (1 <= rtotal s) by (apply Hl; lia). assert (0 <? rtotal s = true) as -> by lia.
+    repeat split; lia.
+  - destruct (rr s <=? 0) eqn:E2; intros E; inversion E; subst; clear E; [exact HI|].
+    unfold Inv, rcap, dec_total in *. recsimpl. destruct HI as (Hc & Hr0 & Hrw & Hwc & Ht & Hrt & Hl).
+    assert (0 <? rtotal s = true) as -> by lia. repeat split; lia.
+Qed.
